@@ -12,11 +12,13 @@ import (
 
 // RunResult is what one simulated run reports.
 type RunResult struct {
-	Property   string         `json:"property"`
-	Family     string         `json:"family"`
-	Seed       uint64         `json:"seed"`
-	Run        int            `json:"run"`
-	Viol       *Violation     `json:"violation,omitempty"`
+	Property string     `json:"property"`
+	Family   string     `json:"family"`
+	Seed     uint64     `json:"seed"`
+	Run      int        `json:"run"`
+	Viol     *Violation `json:"violation,omitempty"`
+	// Extra: further, independent rule failures of the same run (each judged on its own against the known findings)
+	Extra      []*Violation   `json:"extra_violations,omitempty"`
 	Stuck      string         `json:"stuck,omitempty"`
 	Steps      int            `json:"steps"`
 	Switches   int            `json:"switches"`
